@@ -68,6 +68,15 @@ theorem listed_iff_found (lists : List (List Nat)) (n : Nat) :
   · rintro ⟨l, hl, hn⟩; exact ⟨l, hl, by simpa using hn⟩
   · rintro ⟨l, hl, hn⟩; exact ⟨l, hl, by simpa using hn⟩
 
+/-- READ OF AN ORDINARY ENTRY: when the archive the file map selects holds the name as a plain file, the read returns exactly
+    that archive's content (and a name the map does not hold is not found) -/
+theorem plain_read_is_winners_content (md5 : Bytes → Bytes) (vers : List Ver) (i : Nat) (d : Bytes)
+    (h : vers[i]? = some (.plain (some d))) :
+    readFile md5 vers (some i) = .ok d ∧ readFile md5 vers none = .error .notFound := by
+  constructor
+  · simp [readFile, h]
+  · rfl
+
 /-- READ THROUGH A PATCH ENTRY: whatever `read_patched_file` returns is either the base itself (no archive holds a patch
     version of the name) or matches the digest and size declared by the HIGHEST-PRIORITY patch version; every archive's
     patch version was read and parsed (none skipped), for any digest function -/
